@@ -28,3 +28,10 @@ Proof.
   intros _ _ _ G Hc Hcur.
   exact (pair_good_reads gen_tables sp st pref u x y gen_tables_wf gen_tables_nonzero Hc Hcur G).
 Qed.
+
+(* position of the first parameter row with a given name (used by the non-vacuity examples) *)
+Fixpoint param_index (name : string) (l : list (string * bool * bool * string * string * uref)) : nat :=
+  match l with
+  | [] => O
+  | (n, _, _, _, _, _) :: r => if String.eqb n name then O else S (param_index name r)
+  end.
